@@ -692,14 +692,14 @@ func LessThanEqualInts
 
 func NegateInt
   props C06 C08
-  requires isInt(val)
+  requires isInt(val) && canon(val)
   assigns nothing
   ensures val: isInt(ret) && intval(ret) == -old(intval(val))
   ensures canon: canon(ret)
 
 func IncrementInt
   props C06 C08
-  requires isInt(val)
+  requires isInt(val) && canon(val)
   assigns nothing
   ensures val: isInt(ret) && intval(ret) == old(intval(val)) + 1
   ensures canon: canon(ret)
@@ -709,5 +709,24 @@ func DecrementInt
   requires isInt(val)
   assigns nothing
   ensures val: isInt(ret) && intval(ret) == old(intval(val)) - 1
+  ensures canon: canon(ret)
+
+// generic (dynamically dispatched) unary operators, on the Int slice of their domain
+func NegateVal
+  props C06 C08
+  requires isInt(operand) && canon(operand)
+  ensures val: isInt(ret) && intval(ret) == -old(intval(operand))
+  ensures canon: canon(ret)
+
+func IncrementVal
+  props C06 C08
+  requires isInt(operand) && canon(operand)
+  ensures val: isInt(ret) && intval(ret) == old(intval(operand)) + 1
+  ensures canon: canon(ret)
+
+func DecrementVal
+  props C06 C08
+  requires isInt(operand) && canon(operand)
+  ensures val: isInt(ret) && intval(ret) == old(intval(operand)) - 1
   ensures canon: canon(ret)
 @*/
